@@ -176,6 +176,14 @@ def compare(res, dims, labels, exp, what, sig):
         x, y = g[idx], exp[idx]
         if not (core.same_scalar(x, y) and (not isinstance(y, str) or isinstance(x, str))):
             raise Violation("value", {"what": what, "cell": list(idx), "got": core.jsonable(x), "expected": core.jsonable(y), "result": core.brief(res)}, sig=sig)
+    # the result is an array like any other: the cell at its last labels is found BY LABEL (a result that silently answers by position,
+    # or whose lookup state is stale, fails here)
+    if exp.ndim and all(len(l) and len(set(map(core.canon_label, l))) == len(l) for l in labels) and not any(core.isnan(x) for l in labels for x in l if isinstance(x, float)):
+        key = tuple(core.label_array(l)[-1].item() if hasattr(core.label_array(l)[-1], "item") else core.label_array(l)[-1] for l in labels)
+        got = lib(lambda: res[key], what=what + " then result[%s] (by label)" % (core.jsonable(list(key)),), sig=sig)
+        y = exp[tuple([-1] * exp.ndim)]
+        check(core.same_scalar(got, y), "result-answers-label-lookup-wrongly", {"what": what, "key": core.jsonable(list(key)), "got": core.jsonable(got), "expected": core.jsonable(y),
+                                                                               "result": core.brief(res)}, sig)
 
 
 KEYS = {"neg": lambda x: -x, "strrev": lambda x: str(x)[::-1], "const-mod2": lambda x: (x if isinstance(x, str) else int(x * 4)) in ("a", "c", "e") if isinstance(x, str) else int(x * 4) % 2}
@@ -341,11 +349,15 @@ def run_case(case):
             if form == "near":
                 cl.add("setna:near-miss-value" + ("-int-data" if spec["vk"] == "i" else ""))
         exp[mask] = float("nan")
+        margs_ = [x for x in (arg if isinstance(arg, list) else [arg]) if isinstance(x, (np.ndarray, da.DimArray))]
+        before_ = [np.array(getattr(x, "values", x), copy=True) for x in margs_]
         if p["inplace"]:
             lib(lambda: a.setna(arg, inplace=True), what=what, sig=sig)
             res = a
         else:
             res = lib(lambda: a.setna(arg), what=what, sig=sig)
+        for x, b_ in zip(margs_, before_):      # the masks handed in are arguments, not scratch space
+            check(np.array_equal(getattr(x, "values", x), b_), "mask-argument-modified", {"what": what, "now": core.jsonable(getattr(x, "values", x)), "was": core.jsonable(b_)}, sig)
         compare(res, dims, labels, exp, what, sig)
         if spec["vk"] == "i":
             cl.add("setna:int-data")
